@@ -40,6 +40,18 @@ def d6_family(rng, n):
             rows.append(mkrow("FOO", (s2 + datetime.timedelta(days=rng.choice([3, 29, 31, 60]))).isoformat(), "Buy", rng.choice(["", "Spouse"]),
                               shares="1", aps=gen.dec_str(p0, 2), cur="CAD"))
         out.append(("d6 #%d" % i, {"rows": rows, "init": {}, "features": ["d6_family"]}, [s1.isoformat(), (s1 + datetime.timedelta(days=4)).isoformat()]))
+        if i % 5 == 0:
+            # a summarised year whose gains and (non-superficial) losses cancel exactly, followed by later activity
+            y2 = rng.randint(2015, 2021)
+            q = rng.choice([2, 3, 5])
+            g = rng.randint(1, 9)
+            rz = [mkrow("ZED", "%d-01-10" % y2, "Buy", "", shares=str(4 * q), aps="20.00", cur="CAD"),
+                  mkrow("ZED", "%d-03-10" % y2, "Sell", "", shares=str(q), aps=gen.dec_str(Fraction(20 + g), 2), cur="CAD"),
+                  mkrow("ZED", "%d-09-10" % y2, "Sell", "", shares=str(q), aps=gen.dec_str(Fraction(20 - g), 2), cur="CAD"),
+                  mkrow("ZED", "%d-03-15" % (y2 + 1), "Buy", "", shares="7", aps="31.50", cur="CAD"),
+                  mkrow("ZED", "%d-08-15" % (y2 + 1), "Sell", "", shares=str(2 * q + 7), aps="17.00", cur="CAD")]
+            out.append(("zero-net year #%d" % i, {"rows": rz, "init": {}, "features": ["zero_net_year"]},
+                        ["%d-12-31" % y2, "%d-02-01" % (y2 + 1), "%d-10-15" % y2]))
     return out
 
 
